@@ -244,6 +244,23 @@ func describe(raw []byte, rk []byte, mut, expect string, now time.Time) string {
 			}
 		}
 		add("ver", ver)
+		// a key book that already knows the key of the name (Validator{KeyBook: kb})
+		bookver := "-"
+		if nameErr == nil {
+			for _, k := range allKeys() {
+				if k.name.Equal(name) {
+					pkb, _ := ic.MarshalPublicKey(k.sk.GetPublic())
+					add("bookkey", vh.Hex(pkb))
+					ok, err := k.sk.GetPublic().Verify(append([]byte("ipns-signature:"), pb.GetData()...), pb.GetSignatureV2())
+					if ok && err == nil {
+						bookver = "1"
+					} else {
+						bookver = "0"
+					}
+				}
+			}
+		}
+		add("bookver", bookver)
 	}
 	add("now", eolNs(now))
 	add("mut", mut)
@@ -387,7 +404,11 @@ func mutate(r *vh.Rand, b base, now time.Time) (raw, rk []byte, mut, expect stri
 		}
 		return marshal(pb), rk, "legacy-v2only-" + name, "fail"
 	}
-	switch k := r.Intn(46); k {
+	k0 := r.Intn(50)
+	if k0 >= 46 {
+		k0 = 19
+	}
+	switch k := k0; k {
 	case 0, 1, 2, 3, 4:
 		return b.raw, rk, "none", okExpect
 	case 5:
@@ -483,8 +504,31 @@ func mutate(r *vh.Rand, b base, now time.Time) (raw, rk []byte, mut, expect stri
 		pb.PubKey, _ = ic.MarshalPublicKey(o.k.sk.GetPublic())
 		return marshal(pb), rk, "pubkey-other", "fail"
 	case 19:
-		pb.PubKey = r.Bytes(1 + r.Intn(40))
-		return marshal(pb), rk, "pubkey-garbage", "fail"
+		// the embedded key made unparsable: truncated, protobuf tag byte or key-type byte flipped, garbage
+		// (a key is embedded first when the record has none: Ed25519/secp256k1 WithPublicKey(true))
+		if len(pb.PubKey) == 0 {
+			pb.PubKey, _ = ic.MarshalPublicKey(b.k.sk.GetPublic())
+		}
+		kb := append([]byte(nil), pb.PubKey...)
+		kind := r.Intn(4)
+		switch kind {
+		case 0:
+			kb = kb[:1+r.Intn(len(kb)-1)]
+		case 1:
+			kb[0] ^= byte(1 << r.Intn(8))
+		case 2:
+			kb[1] ^= byte(1 << r.Intn(8)) // the KeyType enum value
+		default:
+			kb = r.Bytes(1 + r.Intn(40))
+		}
+		pb.PubKey = kb
+		exp := "fail"
+		if k2, err := ic.UnmarshalPublicKey(kb); err == nil { // the damage happens to leave a parsable key
+			if pid, err := peer.IDFromPublicKey(k2); err == nil && b.k.name.Equal(ipns.NameFromPeer(pid)) {
+				exp = "any"
+			}
+		}
+		return marshal(pb), rk, []string{"pubkey-truncated", "pubkey-tagflip", "pubkey-typeflip", "pubkey-garbage"}[kind], exp
 	case 20:
 		if len(pb.PubKey) != 0 {
 			pb.PubKey = nil
@@ -689,6 +733,16 @@ func gen(r *vh.Rand, tier string, n int, emit func(vh.Case)) {
 
 // ---------------------------------------------------------------- exec
 
+// kbook is a minimal peerstore.KeyBook
+type kbook map[peer.ID]ic.PubKey
+
+func (k kbook) PubKey(p peer.ID) ic.PubKey            { return k[p] }
+func (k kbook) AddPubKey(p peer.ID, pk ic.PubKey) error { k[p] = pk; return nil }
+func (k kbook) PrivKey(peer.ID) ic.PrivKey            { return nil }
+func (k kbook) AddPrivKey(peer.ID, ic.PrivKey) error  { return nil }
+func (k kbook) PeersWithKeys() peer.IDSlice           { return nil }
+func (k kbook) RemovePeer(p peer.ID)                  { delete(k, p) }
+
 func class(err error) string {
 	switch {
 	case err == nil:
@@ -764,13 +818,42 @@ func exec(c vh.Case, o *vh.Out) {
 		mut, expect := kvOf(f, "mut"), kvOf(f, "expect")
 		o.Kind("mut-" + mut)
 		vv := class(ipns.Validator{}.Validate(string(rk), raw))
+		vve := class(ipns.Validator{KeyBook: kbook{}}.Validate(string(rk), raw))
+		full := kbook{}
+		if bk := kvOf(f, "bookkey"); bk != "" {
+			if pk, err := ic.UnmarshalPublicKey(vh.UnHex(bk)); err == nil {
+				if pid, err := peer.IDFromPublicKey(pk); err == nil {
+					full[pid] = pk
+				}
+			}
+		}
+		vvk := class(ipns.Validator{KeyBook: full}.Validate(string(rk), raw))
+		// self-consistency: a record that validates (in any configuration) has accessors that succeed,
+		// PubKey() included when a key is embedded; and it is signed by the key of the name
+		for cfgName, res := range map[string]string{"nil": vv, "empty": vve, "holds-key": vvk} {
+			if res != "ok" {
+				continue
+			}
+			if r0, err := ipns.UnmarshalRecord(raw); err == nil {
+				var pb0 ipns_pb.IpnsRecord
+				_ = proto.Unmarshal(raw, &pb0)
+				if len(pb0.GetPubKey()) != 0 {
+					if _, err := r0.PubKey(); err != nil {
+						o.Fail("valid-with-unparsable-key", "Validator(%s key book) accepts a record whose PubKey() fails: %v (mutation %s)", cfgName, err, mut)
+					}
+				}
+				if kvOf(f, "bookver") != "1" && kvOf(f, "ver") != "1" {
+					o.Fail("valid-but-unsigned", "Validator(%s key book) accepts a record not signed by the name's key (mutation %s)", cfgName, mut)
+				}
+			}
+		}
 		rec, err := ipns.UnmarshalRecord(raw)
 		if err != nil {
 			o.Kind("unm-" + class(err))
 			if expect == "ok" {
 				o.Fail("valid-rejected", "mutation %s: library record does not unmarshal: %v", mut, err)
 			}
-			o.Emit("unm=%s vv=%s", class(err), vv)
+			o.Emit("unm=%s vv=%s vve=%s vvk=%s", class(err), vv, vve, vvk)
 			continue
 		}
 		name, nameErr := ipns.NameFromRoutingKey(rk)
@@ -906,7 +989,7 @@ func exec(c vh.Case, o *vh.Out) {
 		} else if expect == "ok" {
 			o.Fail("valid-rejected", "untouched library record rejected: %s", vwn)
 		}
-		o.Emit("unm=ok vwn=%s vv=%s seq=%s ttl=%s vt=%s eol=%s val=%s", vwn, vv, acc(seq, e1), acc(ttl, e2), acc(vt, e3), acc(eol, e4), acc(val, e5))
+		o.Emit("unm=ok vwn=%s vv=%s vve=%s vvk=%s seq=%s ttl=%s vt=%s eol=%s val=%s", vwn, vv, vve, vvk, acc(seq, e1), acc(ttl, e2), acc(vt, e3), acc(eol, e4), acc(val, e5))
 	}
 }
 
